@@ -330,7 +330,10 @@ class Session:
         info = {"paths": 0, "feasible_returns": 0, "feasible_raises": {}, "variants": len(contract.variants),
                 "requires_sat": None}
         short = fn.qualname.split(".", 2)[-1] if fn.qualname.startswith("mosaik.") else fn.qualname
+        only = getattr(contract, "_only_variant", None)
         for vi, variant in enumerate(contract.variants):
+            if only is not None and vi != only:
+                continue
             vtag = f"[v{vi}]" if len(contract.variants) > 1 else ""
             worklist = [[]]
             while worklist:
